@@ -124,7 +124,7 @@ def us_std_atm_altitude_from_pressure(P):
 
 
 def us_std_atm_pressure_from_altitude(z):
-    z = np.asarray(z)
+    z = np.asarray(z, dtype=np.float64)
     x = z < np.inf
     h = np.empty_like(z)
     h[x] = z[x] * const.earth_radius / (z[x] + const.earth_radius)
